@@ -55,6 +55,8 @@ def run_one(R, level, roots, db, api, label, w=None):
         "roots": [list(r) for r in roots],
         "db": wc.enc_db(db),
     }
+    if label == "nested":
+        case["label"] = label
     sizes = tuple(sum(1 for k in db if gen.strictly_below(k, r)) for r in roots)
     fp = ("c01", sizes, tuple(roots), level, api)
     nontrivial = bool(truth) and nreq >= 2
@@ -101,6 +103,21 @@ def run_one(R, level, roots, db, api, label, w=None):
         R.mon["instances_yielded"] += len(ys)
 
 
+def nested_roots(R):
+    """One process walks a subtree and later a subtree that CONTAINS it (and the other way
+    round), over the same instances, on the same client and on a new one."""
+    nested_db = {(1, 3, 11, c, r): ("int", 10 * c + r) for c in (4, 5, 6) for r in (1, 2, 3)}
+    nested_db[(1, 3, 12, 0)] = ("int", 0)
+    for first, second in (([(1, 3, 11, 5)], [(1, 3, 11)]), ([(1, 3, 11)], [(1, 3, 11, 5)]), ([(1, 3, 11, 5), (1, 3, 11, 6)], [(1, 3, 11)]), ([(1, 3, 11, 4)], [(1, 3, 11, 5), (1, 3, 11, 4), (1, 3, 11, 6)])):
+        for level in ("v2c", "v3-md5"):
+            w = rig.World(level, nested_db)
+            run_one(R, level, first, nested_db, "multiwalk", "nested", w=w)
+            run_one(R, level, second, nested_db, "multiwalk", "nested", w=w)
+            run_one(R, level, second, nested_db, "multiwalk", "nested")
+            run_one(R, level, first, nested_db, "pymultiwalk", "nested")
+            R.mon["nested_root_walks_in_one_process"] += 4
+
+
 def run(R):
     n = N_CASES[R.tier]
     levels = rig.LEVEL_CYCLE_V2
@@ -145,6 +162,7 @@ def run(R):
             ([(1, 3, 1), (1, 3, 2)], {(1, 3, 1, 1): ("int", 1), (1, 3, 2, 1): ("int", 2), (1, 3, 2, 2): ("int", 3)}),
             ([(1, 3, 5), (1, 3, 6), (1, 3, 7)], {(1, 3, 5, 1): ("int", 1), (1, 3, 7, 1): ("int", 2), (1, 3, 7, 2): ("int", 3), (1, 3, 8, 0): ("int", 9)}),
         ]
+        nested_roots(R)
         for roots, db in corner:
             for level in rig.V2_LEVELS:
                 run_one(R, level, roots, db, "multiwalk", "corner")
@@ -176,6 +194,9 @@ def boundary(R):
 
 def replay(R, v):
     case = v["case"]
+    if case.get("label") == "nested":
+        nested_roots(R)
+        return
     run_one(
         R,
         case["level"],
